@@ -84,7 +84,8 @@ def field_writes(ctx):
 def run(ctx):
     ctx.audit("Props.C16", ["c16_lock_discipline", "c16_handlers_disciplined", "c16_old_unlocked_delete_refuted", "c16_no_torn_profile",
                             "c16_spacing_atomic", "c16_segments_are_runs", "c16_lost_update_refuted", "c16_double_spend_refuted",
-                            "c16_delete_undone_refuted"])
+                            "c16_delete_undone_refuted", "c16_publication_safe", "c16_split_unseal_refuted",
+                            "c16_u2f_once_at_storage_granularity", "c16_u2f_double_spend_refuted", "c16_ssegments_are_runs"])
     gen = ctx.extract()
     files = ["kmd/common.go", "kmd/creds.go", "kmd/c16.go", os.path.join(ctx.work, "gen", "mux_gen.go")]
     overlay, counts = instrument(ctx)
